@@ -78,6 +78,10 @@ def main():
     if o.strip():
         res["error"] = "/repo is not clean: " + o
         print(json.dumps(res)); return 1
+    if os.path.exists(out + "/patch_rebased.diff"):
+        # the original patch touches lines a fix: commit changed; an equivalent change was re-made on /repo's tree
+        patch = out + "/patch_rebased.diff"
+        res["applied_with"] = "patch_rebased.diff (same change re-made on top of the fix: commits)"
     c, o = sh("git -C /repo apply %s" % patch)
     if c != 0:
         # /repo carries the fix: commits, the patch was made against the pinned commit: retry with less context
